@@ -314,7 +314,9 @@ class Gen:
         w = r.choice([1, 1, 1, 2, 3, 4]) if self.f['multi_assign'] else 1
         plain = {n: rg for n, rg in nets.items()}
         lhs = self.atom(plain, w, allow_const=False)
-        rhs = self.atom(plain, w, allow_const=True)
+        # now and then the two sides differ in width: the assign joins the low min(widths) bits
+        wr = r.choice([1, 2, 3, 5]) if self.f['multi_assign'] and r.random() < 0.15 else w
+        rhs = self.atom(plain, wr, allow_const=True) or self.atom(plain, w, allow_const=True)
         if lhs is None or rhs is None:
             return None
         for e in (lhs, rhs):
